@@ -787,4 +787,220 @@ Section Core.
       eapply Forall_impl; [|exact R3]. intros d [_ Hr]. unfold not_inval. congruence.
     - exists [], 0%Z. split; [apply mstepx_refl; reflexivity | constructor].
   Qed.
+
+  (** ** field projections through the elementary setters *)
+  Lemma smap_add_cc s z j : smap (add_cc P s z) j = smap s j. Proof. reflexivity. Qed.
+  Lemma smap_set_cc s z j : smap (set_cc P s z) j = smap s j. Proof. reflexivity. Qed.
+  Lemma smap_bump_eid s j : smap (bump_eid P s) j = smap s j. Proof. reflexivity. Qed.
+  Lemma st_cc_add_cc s z : st_cc P (add_cc P s z) = (st_cc P s + z)%Z. Proof. reflexivity. Qed.
+  Lemma st_cc_set_sh s i x : st_cc P (set_sh P s i x) = st_cc P s. Proof. reflexivity. Qed.
+  Lemma st_cc_bump_eid s : st_cc P (bump_eid P s) = st_cc P s. Proof. reflexivity. Qed.
+  Lemma st_cc_ev_push s i k x : st_cc P (ev_push P s i k x) = st_cc P s.
+  Proof. unfold ev_push. destruct (N.ltb _ _); reflexivity. Qed.
+  Lemma st_now_add_cc s z : st_now P (add_cc P s z) = st_now P s. Proof. reflexivity. Qed.
+  Lemma st_now_set_sh s i x : st_now P (set_sh P s i x) = st_now P s. Proof. reflexivity. Qed.
+  Lemma st_now_bump_eid s : st_now P (bump_eid P s) = st_now P s. Proof. reflexivity. Qed.
+  Lemma st_now_ev_push s i k x : st_now P (ev_push P s i k x) = st_now P s.
+  Proof. unfold ev_push. destruct (N.ltb _ _); reflexivity. Qed.
+  Lemma st_eid_add_cc s z : st_eid P (add_cc P s z) = st_eid P s. Proof. reflexivity. Qed.
+  Lemma st_eid_set_sh s i x : st_eid P (set_sh P s i x) = st_eid P s. Proof. reflexivity. Qed.
+  Lemma st_eid_bump_eid s : st_eid P (bump_eid P s) = st_eid P s + 1. Proof. reflexivity. Qed.
+  Lemma st_eid_ev_push s i k x : st_eid P (ev_push P s i k x) = st_eid P s.
+  Proof. unfold ev_push. destruct (N.ltb _ _); reflexivity. Qed.
+  Lemma sent_add_cc s z : sent (add_cc P s z) = sent s. Proof. reflexivity. Qed.
+  Lemma sent_set_sh s i x : sent (set_sh P s i x) = sent s. Proof. reflexivity. Qed.
+  Lemma sent_bump_eid s : sent (bump_eid P s) = sent s. Proof. reflexivity. Qed.
+  Lemma sent_ev_push s i k x : sent (ev_push P s i k x) = sent s.
+  Proof. unfold ev_push. destruct (N.ltb _ _); reflexivity. Qed.
+  Lemma nd_add_cc s z : st_ndrops P (add_cc P s z) = st_ndrops P s. Proof. reflexivity. Qed.
+  Lemma nd_set_sh s i x : st_ndrops P (set_sh P s i x) = st_ndrops P s. Proof. reflexivity. Qed.
+  Lemma nd_bump_eid s : st_ndrops P (bump_eid P s) = st_ndrops P s. Proof. reflexivity. Qed.
+  Lemma nd_ev_push s i k x : st_ndrops P (ev_push P s i k x) = st_ndrops P s.
+  Proof. unfold ev_push. destruct (N.ltb _ _); reflexivity. Qed.
+
+  Ltac csimp :=
+    repeat (rewrite ?smap_add_cc, ?smap_set_cc, ?smap_bump_eid, ?smap_ev_push, ?smap_set_sh, ?smap_notify,
+            ?st_cc_add_cc, ?st_cc_set_sh, ?st_cc_bump_eid, ?st_cc_ev_push, ?st_cc_notify,
+            ?st_now_add_cc, ?st_now_set_sh, ?st_now_bump_eid, ?st_now_ev_push, ?st_now_notify,
+            ?st_eid_add_cc, ?st_eid_set_sh, ?st_eid_bump_eid, ?st_eid_ev_push, ?st_eid_notify,
+            ?sent_add_cc, ?sent_set_sh, ?sent_bump_eid, ?sent_ev_push,
+            ?nd_add_cc, ?nd_set_sh, ?nd_bump_eid, ?nd_ev_push; cbn [s_map sh_map sh_timers sh_pol];
+            repeat match goal with
+                   | |- context [s_map P (st_sh P ?x ?j)] => change (s_map P (st_sh P x j)) with (smap x j)
+                   end).
+
+  (** ** writes and reads: single-shard effects that may allocate incarnations *)
+  Definition ueff (s s' : state) (i : N) (m' : amap entry) (dcc : Z) (de : N) : Prop :=
+    (forall j, smap s' j = if N.eqb j i then m' else smap s j)
+    /\ st_cc P s' = (st_cc P s + dcc)%Z
+    /\ st_now P s' = st_now P s
+    /\ st_eid P s' = st_eid P s + de
+    /\ sent s' = sent s /\ st_ndrops P s' = st_ndrops P s.
+
+  Ltac ueff_split := unfold ueff; split; [|split; [|split; [|split; [|split]]]].
+
+  Lemma ueff_id s i : ueff s s i (smap s i) 0 0.
+  Proof.
+    ueff_split; try reflexivity; try lia.
+    intros j. destruct (N.eqb_spec j i) as [->|]; reflexivity.
+  Qed.
+
+  Lemma ueff_trans s s1 s2 i m1 m2 d1 d2 e1 e2 :
+    ueff s s1 i m1 d1 e1 -> ueff s1 s2 i m2 d2 e2 -> ueff s s2 i m2 (d1 + d2) (e1 + e2).
+  Proof.
+    intros [M1 [C1 [N1 [E1 [S1 D1]]]]] [M2 [C2 [N2 [E2 [S2 D2]]]]]. ueff_split.
+    - intros j. rewrite M2, M1. destruct (N.eqb j i); reflexivity.
+    - rewrite C2, C1. lia.
+    - congruence.
+    - rewrite E2, E1. lia.
+    - congruence.
+    - congruence.
+  Qed.
+
+  Lemma perform_ueff i lim ord s j : ueff s (perform P c i lim ord s) j (smap s j) 0 0.
+  Proof.
+    destruct (perform_eff i lim ord s) as [M [C [N [E X]]]].
+    unfold perform in *. destruct (take_n lim (s_evq P (st_sh P s i))) as [w r].
+    ueff_split; try reflexivity; try lia.
+    intros j'. rewrite M. destruct (N.eqb_spec j' i); destruct (N.eqb_spec j' j); subst; reflexivity.
+  Qed.
+
+  (* the shape shared by Cache::insert, insert_with_ttl, multi_insert items and VacantEntry::insert *)
+  Lemma insert_core_ueff s k v cost exp sched :
+    exists h,
+      let i := shard_of c k in
+      let e := mkE v cost exp (match c_tti c with Some _ => st_now P s | None => 0 end) h (st_eid P s) in
+      ueff s (insert_core P c s k v cost exp sched) i (aput k e (smap s i))
+           (Z.of_N cost - match afind k (smap s i) with Some o => Z.of_N (e_cost o) | None => 0 end) 1.
+  Proof.
+    unfold insert_core.
+    set (i := shard_of c k).
+    destruct (match sched with
+              | Some d => if has_wheel c then let '(s', id) := schedule P c s i k d in (s', Some id) else (s, None)
+              | None => (s, None)
+              end) as [s1 h] eqn:Es.
+    exists h. cbn zeta.
+    assert (H1 : (forall j, smap s1 j = smap s j) /\ st_cc P s1 = st_cc P s /\ st_now P s1 = st_now P s
+                 /\ st_eid P s1 = st_eid P s /\ sent s1 = sent s /\ st_ndrops P s1 = st_ndrops P s).
+    { destruct sched as [d|]; [destruct (has_wheel c)|]; try (inversion Es; subst; repeat split; reflexivity).
+      pose proof (smap_schedule s i k d) as Hs. unfold schedule in *. cbn [fst] in Hs.
+      inversion Es; subst. repeat split; try reflexivity. exact Hs. }
+    destruct H1 as [M1 [C1 [N1 [E1 [S1 D1]]]]].
+    change (s_map P (st_sh P s1 i)) with (smap s1 i). rewrite M1.
+    set (e := mkE v cost exp _ h (st_eid P s)).
+    destruct (afind k (smap s i)) as [o|] eqn:Ef; ueff_split; csimp; try (rewrite ?C1, ?E1; first [reflexivity | lia | assumption]).
+    - intros j. csimp. destruct (N.eqb_spec j i) as [->|]; csimp; rewrite ?N.eqb_refl, ?M1; reflexivity.
+    - intros j. csimp. destruct (N.eqb_spec j i) as [->|]; csimp; rewrite ?N.eqb_refl, ?M1; reflexivity.
+  Qed.
+
+  Lemma vacant_insert_ueff s k v cost :
+    let i := shard_of c k in
+    let e := mkE v cost (ttl_exp c (st_now P s)) (match c_tti c with Some _ => st_now P s | None => 0 end)
+                 None (st_eid P s) in
+    ueff s (vacant_insert P c s k v cost) i (aput k e (smap s i))
+         (Z.of_N cost - match afind k (smap s i) with Some o => Z.of_N (e_cost o) | None => 0 end) 1.
+  Proof.
+    cbn zeta. unfold vacant_insert. set (i := shard_of c k).
+    change (s_map P (st_sh P s i)) with (smap s i).
+    destruct (afind k (smap s i)) as [o|] eqn:Ef; ueff_split; csimp; try first [reflexivity | lia].
+    - intros j. csimp. destruct (N.eqb_spec j i) as [->|]; csimp; rewrite ?N.eqb_refl; reflexivity.
+    - intros j. csimp. destruct (N.eqb_spec j i) as [->|]; csimp; rewrite ?N.eqb_refl; reflexivity.
+  Qed.
+
+  Definition refreshed (s : state) (e : entry) : entry :=
+    match c_tti c with
+    | Some _ => mkE (e_val e) (e_cost e) (e_exp e) (st_now P s) (e_timer e) (e_id e)
+    | None => e
+    end.
+
+  Lemma aset_same_id k (e : entry) m : afind k m = Some e -> NoDup (akeys m) -> aset k e m = m.
+  Proof.
+    induction m as [|[k' e'] t IH]; cbn [afind aset akeys map fst]; intros Hf Hnd; [reflexivity|].
+    inversion Hnd as [|? ? Hni Hnd']; subst.
+    destruct (N.eqb_spec k k') as [->|Hn].
+    - inversion Hf; subst. f_equal.
+      clear -Hni. induction t as [|[k2 e2] t IH]; cbn [aset]; [reflexivity|].
+      destruct (N.eqb_spec k' k2) as [->|Hn]; [exfalso; apply Hni; left; reflexivity|].
+      f_equal. apply IH. intros Hi. apply Hni. right. exact Hi.
+    - f_equal. apply IH; assumption.
+  Qed.
+
+  Lemma on_hit_ueff s k e :
+    let i := shard_of c k in
+    ueff s (on_hit P c s k e) i
+         (match c_tti c with Some _ => aset k (refreshed s e) (smap s i) | None => smap s i end) 0 0.
+  Proof.
+    cbn zeta. unfold on_hit, refreshed. set (i := shard_of c k).
+    ueff_split; csimp; try first [reflexivity | lia].
+    intros j. csimp. destruct (N.eqb_spec j i) as [->|]; [|reflexivity].
+    destruct (c_tti c); reflexivity.
+  Qed.
+
+  Lemma on_hit_direct_ueff s k e :
+    let i := shard_of c k in
+    ueff s (on_hit_direct P c s k e) i
+         (match c_tti c with Some _ => aset k (refreshed s e) (smap s i) | None => smap s i end) 0 0.
+  Proof.
+    cbn zeta. unfold on_hit_direct, refreshed. set (i := shard_of c k).
+    ueff_split; csimp; try first [reflexivity | lia].
+    intros j. csimp. destruct (N.eqb_spec j i) as [->|]; [|reflexivity].
+    destruct (c_tti c); reflexivity.
+  Qed.
+
+  Lemma do_compute_ueff s k f :
+    let i := shard_of c k in
+    match computable P c s k with
+    | Some e => ueff s (fst (do_compute P c s k f)) i
+                     (aset k (mkE (capply f (e_val e)) (e_cost e) (e_exp e) (e_la e) (e_timer e) (e_id e)) (smap s i)) 0 0
+                /\ snd (do_compute P c s k f) = Some (e_val e) /\ find P c s k = Some e
+    | None => do_compute P c s k f = (s, None)
+    end.
+  Proof.
+    cbn zeta. unfold do_compute. destruct (computable P c s k) as [e|] eqn:Ec; [|reflexivity].
+    cbn [fst snd]. split; [|split; [reflexivity|]].
+    - set (i := shard_of c k). ueff_split; csimp; try first [reflexivity | lia].
+      intros j. csimp. destruct (N.eqb_spec j i) as [->|]; reflexivity.
+    - unfold computable in Ec. destruct (find P c s k) as [e'|]; [|discriminate].
+      destruct (fix_f33 (c_fix c) && expired c (st_now P s) e'); [discriminate | exact Ec].
+  Qed.
+
+  (** ** remove *)
+  Lemma do_remove_mstepx s k :
+    0 < c_shards c ->
+    match find P c s k with
+    | Some e => mstepx s (fst (do_remove P c s k)) [mkDrop (shard_of c k) Invalidated k e] (- Z.of_N (e_cost e))
+                /\ snd (do_remove P c s k) = Some (e_val e)
+    | None => do_remove P c s k = (s, None)
+    end.
+  Proof.
+    intros Hn. unfold do_remove, find. set (i := shard_of c k).
+    change (s_map P (st_sh P s i)) with (smap s i).
+    destruct (afind k (smap s i)) as [e|] eqn:Ef; [|reflexivity].
+    cbn [fst snd]. split; [|reflexivity].
+    set (sh' := mkSh P _ _ _ _ _ _).
+    set (s1 := add_cc P (set_sh P s i sh') _).
+    assert (H1 : eff s s1 i (adel k (smap s i)) (- Z.of_N (e_cost e)) []).
+    { unfold eff. split; [|split; [|split; [|split]]]; try reflexivity.
+      - intros j. unfold s1. csimp. destruct (N.eqb j i); reflexivity.
+      - apply emits_same; reflexivity. }
+    assert (H2 : eff s (notify P c s1 (mkNt k (e_val e) Invalidated (e_id e))) i
+                     (adel_all (map fst [(k, e)]) (smap s i)) (- Z.of_N (e_cost e))
+                     (map (note Invalidated) [(k, e)])).
+    { replace (- Z.of_N (e_cost e))%Z with (- Z.of_N (e_cost e) + 0)%Z by lia.
+      change (map (note Invalidated) [(k, e)]) with ([] ++ [mkNt k (e_val e) Invalidated (e_id e)]).
+      eapply eff_trans; [exact H1|].
+      unfold eff. split; [|split; [|split; [|split]]].
+      - intros j. rewrite smap_notify. destruct H1 as [M _]. rewrite M.
+        cbn [map fst adel_all fold_left]. destruct (N.eqb j i); reflexivity.
+      - rewrite st_cc_notify. lia.
+      - apply st_now_notify.
+      - apply st_eid_notify.
+      - apply emits_notify. }
+    split; [|split].
+    - apply (eff_mstep s _ i Invalidated [(k, e)]); [exact H2 | |].
+      + constructor; [intros [] | constructor].
+      + intros ke [<-|[]]. exact Ef.
+    - constructor; [|constructor]. split; [apply shard_of_lt; exact Hn | exact I].
+    - intros _. cbn [dcost fold_right d_ent]. lia.
+  Qed.
 End Core.
